@@ -127,6 +127,7 @@ func propDefs() map[string]*PropDef {
 			{Fn: "(*alphaSortedTree[K,V]).Search", Layer: "C", Include: []string{`/arg_bytes_unchanged`, `/pure`}},
 			{Fn: "(*alphaSortedTree[K,V]).Delete", Layer: "C", Include: []string{`/arg_bytes_unchanged@ret#[1-689](~|$)`, `/noop_frame`}},
 			{Fn: "(*alphaSortedTree[K,V]).Insert", Layer: "C", Include: []string{`/key_owned`, `/arg_bytes_unchanged@ret#(1|2|5|6|7)/`}},
+			{Fn: "(*CollationOrderKey[K]).Transform@bytes", Layer: "C"},
 			{Fn: "(*alphaSortedTree[K,V]).Prefix", Layer: "C", Include: []string{`/arg_bytes_unchanged`, `/pure`}},
 			{Fn: "(*alphaSortedTree[K,V]).Range", Layer: "C", Include: []string{`/arg_bytes_unchanged`, `/pure`}},
 		},
@@ -134,7 +135,7 @@ func propDefs() map[string]*PropDef {
 		Assumptions: []string{
 			"decided for the byte-string tree with K = []byte (the instantiation in which Transform returns the caller's slice): every byte of the key argument's backing object, including spare capacity, is unchanged after Search and Delete and on the return paths of Insert that call no node operation; every leaf allocated by Insert points into a byte object allocated inside the call (key_owned), so later caller writes cannot reach it",
 			"exact append semantics: in place when len < cap, fresh object otherwise; the three-index slice keyS[:len:len] makes the capacity test false",
-			"NOT claimed yet: arg_bytes_unchanged on the return paths of Insert that go through addChild and on the exit of Delete that goes through deleteChild (the byte-object frame of the node operations is proved at node level, but the call-site obligations are not yet stable within the quick timeout; they are generated and attempted on every run); collation trees. Range and Prefix are covered for the work done before the sequence is returned (the bounds are copied into fresh objects before the terminator is appended; the caller's bytes are unchanged); the returned closure keeps a reference to the COPIES only for Range and to p itself for Prefix (read-only use, filter$1 verified pure)",
+			"NOT claimed yet: arg_bytes_unchanged on the return paths of Insert that go through addChild and on the exit of Delete that goes through deleteChild (the byte-object frame of the node operations is proved at node level, but the call-site obligations are not yet stable within the quick timeout; they are generated and attempted on every run). Collation trees over []byte keys: the codec copies the key before anything else (Transform@bytes: argument bytes unchanged, neither result aliases the argument, both are objects allocated by the call) and the tree code - verified for an opaque key type - never sees the caller's slice, only what Transform returns. Range and Prefix are covered for the work done before the sequence is returned (the bounds are copied into fresh objects before the terminator is appended; the caller's bytes are unchanged); the returned closure keeps a reference to the COPIES only for Range and to p itself for Prefix (read-only use, filter$1 verified pure)",
 		},
 		DesignRef: "DESIGN.md section 5 C13",
 	}
